@@ -55,7 +55,7 @@ PROPS = {
     },
     "C13": {
         "engine": "backend",
-        "quick": (600, 50), "thorough": (12000, 800),
+        "quick": (450, 45), "thorough": (12000, 800),
         "rule": ("Each run: 1-4 random circuits (<=10 boxes, <=5 wires) over a per-run subset of the exportable "
                  "box kinds (70% of runs quantum core only, 30% also the classical-register fringe); scheduled "
                  "client operations: to_tk vs M3, round trip, import of peer-generated tket circuits, "
@@ -140,7 +140,9 @@ def replay_file(path, quiet=False):
         doc = json.load(f)
     prop = doc.get("world_prop", doc["property"])
     engine = importlib.import_module("sim.engines." + doc["engine"])
-    _, v, k = core.execute(engine, prop, doc["config"], doc["ops"])
+    from sim import world
+    world.load()                      # the parent stays pristine; the ops run in a fresh child
+    v, k = core.execute_isolated(engine, prop, doc["config"], doc["ops"])
     return doc, v, k
 
 
